@@ -50,6 +50,13 @@ def history_shards(tier, fn, all_scheds=False):
                     out.append({"fn": fn, "consts": {"ops": ops, "sched": sched, "nb": nb, "b2": 1 if k == 3 else 0,
                                                      "addr": "sym" if k == 1 else "fixed"},
                                 "timeout": 900, "twin": "first", "cover": "first"})
+    # bursts followed by bulk growth of the collection (pending events above the size at queueing time, below it at lookup time)
+    for ops in (("ozu", "oou") if tier == "quick" else ("ozu", "oou", "uoz", "zou")):
+        if tier == "quick" and not all_scheds:
+            break                      # quick: only C12 runs the growth shards
+        for sched in ((1,) if all_scheds else (1, 0)):
+            for nb in ((3,) if tier == "quick" else (3, 0)):
+                out.append({"fn": fn, "consts": {"ops": ops, "sched": sched, "nb": nb, "b2": 0, "addr": "fixed"}, "timeout": 900, "twin": False, "cover": False})
     return out
 
 
